@@ -75,8 +75,10 @@ def amplitude_normalise(X, thresh=1e-10, clip=False, interp_method='pchip',
                                                                                           thresh,
                                                                                           max_iters))
 
-    # Don't normalise in place
-    X = X.copy()
+    # Don't normalise in place - and work in floating point, the envelope
+    # division would be truncated if integer data were normalised in an
+    # integer array
+    X = X.astype(float)
 
     orig_dim = X.ndim
     if X.ndim == 2:
